@@ -50,8 +50,10 @@ structure St where
   iv : IovecFam.St
   codec : Codec
   maxLag : Nat := 0
+  /-- the codec is the production `Encoder` / `Decoder` (not a hook-H2 one): `ZeroCopySink`, `take_iovec` exist -/
+  prodApi : Bool := false
 
-def St.init : St := ⟨IovecFam.St.init, .none, 0⟩
+def St.init : St := ⟨IovecFam.St.init, .none, 0, false⟩
 
 def parseParams (ws : List String) : Option Params :=
   match ws with
@@ -86,26 +88,35 @@ def errName : DecErr → String
   | .cutShort => "CutShort"
   | .missingImplicitTerminator => "MissingImplicitTerminator"
 
-def step (s : St) (ws : List String) : St × List String :=
-  if s.iv.dead then (s, []) else
+def stepRest (s : St) (ws : List String) : St × List String :=
   let w := s.iv.w
   match ws with
-  | "enc_new" :: ps =>
-    match parseParams ps with
-    | some p =>
-      let (w0, _) := w.addIov Iov.empty
-      match encInit p w0 0 with
-      | some (w1, e) => fin s w1 (.enc p e)
-      | none => panic s
-    | none => (s, ["bad-op"])
-  | "dec_new" :: ps =>
-    match parseParams ps with
-    | some p => let (w0, _) := w.addIov Iov.empty; fin s w0 (.dec p .initial)
-    | none => (s, ["bad-op"])
   | ["feed", m, payload] =>
     match parsePayload payload with
     | none => (s, ["bad-op"])
     | some bytes =>
+      -- `ZeroCopySink for hcobs::Encoder` (through `dyn`): `append_borrow` = `encode`, `append_copy` =
+      -- `encode_copy`; only the production `Encoder` implements the trait
+      let sinkOk : Bool := match s.codec with | .enc _ _ => s.prodApi | _ => false
+      if (m = "sb" || m = "sc") && !sinkOk then (s, ["bad-op"]) else
+      let m := if m = "sb" then "b" else if m = "sc" then "c" else m
+      if m = "a" then
+        -- anchored input read into the codec's OWN arena: `read_n(count = len)` from a slice reader (one
+        -- full delivery), then `encode_anchored` / `decode_anchored` = `EncWorld.encodeRead` / `decodeRead`
+        match w.iov 0, s.codec with
+        | some _, .enc p e =>
+          match encodeRead p w 0 e ⟨bytes, [.deliver bytes.length]⟩ bytes.length 4 with
+          | some (w2, e', .ok _, _) => fin s w2 (.enc p e')
+          | some (_, _, .error _, _) => (s, ["bad-op"])
+          | none => panic s
+        | some _, .dec p st =>
+          match decodeRead p w 0 st ⟨bytes, [.deliver bytes.length]⟩ bytes.length 4 with
+          | some (w2, .ok (_, .ok st'), _) => fin s w2 (.dec p st') ["R ok"]
+          | some (w2, .ok (_, .error e), _) => fin s w2 .failed ["R err " ++ errName e]
+          | some (_, .error _, _) => (s, ["bad-op"])
+          | none => panic s
+        | _, _ => (s, ["bad-op"])
+      else
       -- where do the bytes live?
       let place : Option (World × Slice × Method × Option Anchor) :=
         if m = "f" then
@@ -118,20 +129,6 @@ def step (s : St) (ws : List String) : St × List String :=
             else
               let (w1, ar', res, _) := w0.readN ar ⟨bytes, [.deliver bytes.length]⟩ bytes.length 4
               let w2 := { w1 with arenas := listSet w1.arenas 0 (some ar') none }
-              match res with
-              | .ok a => some (w2, a.slice, .borrow, some a.anchor)
-              | .error _ => none
-          | none => none
-        else if m = "a" then
-          match w.iov 0 with
-          | some v =>
-            if bytes.isEmpty then some (w, ⟨.ext 0, 0, 0⟩, .borrow, none)
-            else
-              -- read_n(count = len) from a slice reader: one full delivery
-              let (w1, ar', res, _) := w.readN v.arena ⟨bytes, [.deliver bytes.length]⟩ bytes.length 4
-              let w2 := match w1.iov 0 with
-                | some v1 => w1.setIov 0 (some { v1 with arena := ar' })
-                | none => w1
               match res with
               | .ok a => some (w2, a.slice, .borrow, some a.anchor)
               | .error _ => none
@@ -165,34 +162,27 @@ def step (s : St) (ws : List String) : St × List String :=
           | none => panic s
         | _ => (s, ["bad-op"])
   | ["feed_read", count, attempts, src, script] =>
-    -- `encode_read` / `decode_read` with a scripted (possibly faulty) reader
+    -- `encode_read` / `decode_read` with a scripted (possibly faulty) reader: the Model functions
+    -- `EncWorld.encodeRead` / `decodeRead` (the ones `Props/C17W`, `C01G`, … are about)
     match count.toNat?, attempts.toNat?, parseHex src, ReadNFam.parseScript script, w.iov 0 with
-    | some c, some att, some src, some sc, some v =>
-      let (w1, ar', res, o) := w.readN v.arena ⟨src, sc⟩ c att
-      let w2 := match w1.iov 0 with
-        | some v1 => w1.setIov 0 (some { v1 with arena := ar' })
-        | none => w1
-      match res with
-      | .error k => fin s w2 s.codec ["R ioerr " ++ toString k ++ " reqs=" ++ natList o.reqs]
-      | .ok a =>
-        let bytes := w2.sliceBytes a.slice
-        let pushA (w : World) : Option World := if a.slice.len = 0 then some w else w.pushAnchor 0 a.anchor
-        match s.codec with
-        | .enc p e =>
-          match encFeed p (2 * bytes.length + 2) w2 0 e .borrow a.slice bytes 0 with
-          | some (w3, e') => match pushA w3 with
-            | some w4 => fin s w4 (.enc p e') ["R ok " ++ toString bytes.length ++ " reqs=" ++ natList o.reqs]
-            | none => panic s
-          | none => panic s
-        | .dec p st =>
-          match decFeed p .borrow (bytes.length + 1) w2 0 st a.slice bytes 0 with
-          | some (w3, .ok st') => match pushA w3 with
-            | some w4 => fin s w4 (.dec p st') ["R ok " ++ toString bytes.length ++ " reqs=" ++ natList o.reqs]
-            | none => panic s
-          | some (w3, .error e) => match pushA w3 with
-            | some w4 => fin s w4 .failed ["R err " ++ errName e ++ " reqs=" ++ natList o.reqs]
-            | none => panic s
-          | none => panic s
+    | some c, some att, some src, some sc, some _ =>
+      match s.codec with
+      | .enc p e =>
+        match encodeRead p w 0 e ⟨src, sc⟩ c att with
+        | some (w2, _, .error k, o) => fin s w2 s.codec ["R ioerr " ++ toString k ++ " reqs=" ++ natList o.reqs]
+        | some (w2, e', .ok n, o) => fin s w2 (.enc p e') ["R ok " ++ toString n ++ " reqs=" ++ natList o.reqs]
+        | none => panic s
+      | .dec p st =>
+        match decodeRead p w 0 st ⟨src, sc⟩ c att with
+        | some (w2, .error k, o) => fin s w2 s.codec ["R ioerr " ++ toString k ++ " reqs=" ++ natList o.reqs]
+        | some (w2, .ok (n, .ok st'), o) =>
+          fin s w2 (.dec p st') ["R ok " ++ toString n ++ " reqs=" ++ natList o.reqs]
+        | some (w2, .ok (_, .error e), o) =>
+          fin s w2 .failed ["R err " ++ errName e ++ " reqs=" ++ natList o.reqs]
+        | none => panic s
+      | _ =>
+        match readOwn w 0 ⟨src, sc⟩ c att with
+        | some (w2, .error k, o) => fin s w2 s.codec ["R ioerr " ++ toString k ++ " reqs=" ++ natList o.reqs]
         | _ => (s, ["bad-op"])
     | _, _, _, _, _ => (s, ["bad-op"])
   | ["foreign_flush"] =>
@@ -223,6 +213,11 @@ def step (s : St) (ws : List String) : St × List String :=
       | some (w', n) => fin s w' s.codec ["R " ++ toString n]
       | none => panic s
     | none => (s, ["bad-op"])
+  | ["take_iovec"] =>
+    -- `Decoder::take_iovec(self)`: the iovec with whatever was decoded so far, no validity check
+    match s.codec with
+    | .dec _ _ => if s.prodApi then fin s w .none ["R ok"] else (s, ["bad-op"])
+    | _ => (s, ["bad-op"])
   | ["finish"] =>
     match s.codec with
     | .enc p e =>
@@ -239,6 +234,49 @@ def step (s : St) (ws : List String) : St × List String :=
         | none => panic s
     | _ => (s, ["bad-op"])
   | _ => (s, ["bad-op"])
+
+def step (s : St) (ws : List String) : St × List String :=
+  if s.iv.dead then (s, []) else
+  let w := s.iv.w
+  match ws with
+  | "enc_new" :: ps =>
+    match parseParams ps with
+    | some p =>
+      let (w0, _) := w.addIov Iov.empty
+      match encInit p w0 0 with
+      | some (w1, e) => fin { s with prodApi := ps = ["prod"] } w1 (.enc p e)
+      | none => panic s
+    | none => (s, ["bad-op"])
+  | "dec_new" :: ps =>
+    match parseParams ps with
+    | some p => let (w0, _) := w.addIov Iov.empty; fin { s with prodApi := ps = ["prod"] } w0 (.dec p .initial)
+    | none => (s, ["bad-op"])
+  -- `Encoder::default()` = `Encoder::new()`, `Decoder::default()` = `Decoder::new()`
+  | ["enc_default"] =>
+    let (w0, _) := w.addIov Iov.empty
+    match encInit ⟨Woodpile.Gen.maxInit, Woodpile.Gen.maxSub, Woodpile.Gen.radix⟩ w0 0 with
+    | some (w1, e) => fin { s with prodApi := true } w1 (.enc ⟨Woodpile.Gen.maxInit, Woodpile.Gen.maxSub, Woodpile.Gen.radix⟩ e)
+    | none => panic s
+  | ["dec_default"] =>
+    let (w0, _) := w.addIov Iov.empty
+    fin { s with prodApi := true } w0 (.dec ⟨Woodpile.Gen.maxInit, Woodpile.Gen.maxSub, Woodpile.Gen.radix⟩ .initial)
+  -- `new_from_iovec(iovec)` on an iovec that already holds `prefill` (handed over with `push`)
+  | op :: prefill :: ps =>
+    if !(op = "enc_from" || op = "dec_from") then stepRest s ws else
+    match parseHex prefill, parseParams ps with
+    | some pre, some p =>
+      let (w0, _) := w.addIov Iov.empty
+      let (w1, id) := w0.addExt pre
+      match w1.push 0 ⟨.ext id, 0, pre.length⟩ with
+      | none => panic s
+      | some w2 =>
+        if op = "enc_from" then
+          match encInit p w2 0 with
+          | some (w3, e) => fin { s with prodApi := ps = ["prod"] } w3 (.enc p e)
+          | none => panic s
+        else fin { s with prodApi := ps = ["prod"] } w2 (.dec p .initial)
+    | _, _ => (s, ["bad-op"])
+  | _ => stepRest s ws
 
 def family : Family := { σ := St, init := St.init, step := step }
 
